@@ -52,6 +52,12 @@ K_Enc == {<<1,4,5>>, <<2,3,3>>}
 K_Bin == {<<15,16,4>>, <<0,1,4>>}
 K_Logp == {<<0,1>>, <<1,3>>}
 K_Bits == {<<21,5>>}
+\* patches of every width issued after 0..3 coded bits of exact symbols and after an inexact one,
+\* followed by more symbols
+P_Enc == {<<0,1,3>>}
+P_Bin == {<<1,2,2>>}
+P_Logp == {<<0,1>>, <<1,1>>}
+P_Patch == {<<1,1>>, <<2,2>>, <<5,3>>, <<10,4>>}
 Empty == {}
 \* every symbol of every small table (thorough)
 C_Enc == {t \in (0..5) \X (1..5) \X {1, 2, 3, 5} : t[1] < t[2] /\ t[2] <= t[3]}
@@ -140,6 +146,7 @@ Analyse(opl, e, etr) ==
        doneCannotFail |-> (e.err = 0 /\ Tell(e) <= SYM_BITS * e.storage) => fin.err = 0,
        \* stronger reading: within budget the only possible error is a refused patch
        budgetNoError  |-> (Tell(e) <= SYM_BITS * e.storage /\ "patch_err" \notin fin.cov) => fin.err = 0,
+       patchRefused |-> PatchRefusedOK(e0, opl, 1),
        fracDef |-> TellFracDef(e) = TellFrac(e) /\ TellFracDef(d0) = TellFrac(d0),
        decValLtRng |-> run.d.val < run.d.rng,
        safeDec |-> SameState(d0, s0) /\ SafeRun(fin.buf, d0, s0, opl, res, 1),
@@ -199,6 +206,7 @@ RngNormalised  == chk.rngNormalised
 NoWriteOutside == chk.noWriteOutside
 DoneCannotFail == chk.doneCannotFail
 BudgetNoError  == chk.budgetNoError
+PatchRefused   == chk.patchRefused
 FracDefAgrees  == chk.fracDef
 DecValLtRng    == chk.decValLtRng
 SafeDecAgrees  == chk.safeDec
